@@ -312,6 +312,14 @@ class PolyInterp:
             if hooked is not None:
                 return hooked
         args = [self.ev(a, env) for a in n.args]
+        # a module-level one-expression helper (`def _atan2_deg(y, x): return degrees(atan2(y, x)) % 360`) is evaluated on the argument values
+        helpers = getattr(self, 'helpers', None) or {}
+        if isinstance(n.func, ast.Name) and n.func.id in helpers and not n.keywords:
+            hf = helpers[n.func.id]
+            hb = [b for b in hf.body if not (isinstance(b, ast.Expr) and isinstance(b.value, ast.Constant))]
+            hp = [a.arg for a in hf.args.args]
+            if len(hb) == 1 and isinstance(hb[0], ast.Return) and hb[0].value is not None and len(hp) == len(args):
+                return self.ev(hb[0].value, dict(zip(hp, args)))
         if self.call_hook is not None and getattr(self.call_hook, 'wants_args', False):
             hooked = self.call_hook(n, args)       # second chance, with the evaluated arguments
             if hooked is not None:
